@@ -25,7 +25,8 @@ import (
 )
 
 type File struct {
-	// Kind: "text" (a file with Content), "missing" (path does not exist), "dir" (a directory).
+	// Kind: "text" (a file with Content), "missing" (path does not exist), "dir" (a directory),
+	// "pipe" (Content arrives through an inherited pipe named as /dev/fd/N: readable, but not a regular file and of size 0 to stat).
 	Kind    string `json:"kind"`
 	Content string `json:"content,omitempty"`
 	Long    bool   `json:"long_flag,omitempty"` // --patch-file instead of -p
@@ -150,6 +151,9 @@ func drawFor(binary string) func(t *rapid.T) Case {
 					}
 				}
 			}
+			if f.Kind == "text" && len(f.Content) < 30000 && gen.OneIn(t, 12, "pipe") {
+				f.Kind = "pipe"
+			}
 			c.Files = append(c.Files, f)
 		}
 		return c
@@ -168,7 +172,7 @@ type expect struct {
 func fold(c Case, order []int) expect {
 	e := expect{failAt: -1}
 	for _, i := range order {
-		if c.Files[i].Kind != "text" {
+		if c.Files[i].Kind != "text" && c.Files[i].Kind != "pipe" {
 			return expect{failAt: i, why: "unreadable " + c.Files[i].Kind}
 		}
 	}
@@ -229,9 +233,29 @@ func runCLI(c Case) (result, error) {
 	}
 	defer os.RemoveAll(dir)
 	var args []string
+	var extra []*os.File
+	defer func() {
+		for _, f := range extra {
+			f.Close()
+		}
+	}()
 	for i, f := range c.Files {
 		p := filepath.Join(dir, fmt.Sprintf("p%d.json", i))
 		switch f.Kind {
+		case "pipe":
+			if len(f.Content) > 32000 {
+				return result{}, fmt.Errorf("pipe content too large for one pipe buffer")
+			}
+			r, w, err := os.Pipe()
+			if err != nil {
+				return result{}, err
+			}
+			if _, err := w.Write([]byte(f.Content)); err != nil {
+				return result{}, err
+			}
+			w.Close()
+			extra = append(extra, r)
+			p = fmt.Sprintf("/dev/fd/%d", 2+len(extra))
 		case "text":
 			if err := os.WriteFile(p, []byte(f.Content), 0o644); err != nil {
 				return result{}, err
@@ -260,6 +284,7 @@ func runCLI(c Case) (result, error) {
 	} else {
 		cmd.Stdin = strings.NewReader(c.stdin())
 	}
+	cmd.ExtraFiles = extra
 	var so, se bytes.Buffer
 	cmd.Stdout, cmd.Stderr = &so, &se
 	err = cmd.Run()
@@ -361,6 +386,9 @@ type ManyCase struct {
 	Binary string `json:"binary"`
 	N      int    `json:"patch_files"`
 	Limit  int    `json:"descriptor_limit"`
+	// Bad: that many of the files (the first ones) are malformed; the command must then fail,
+	// however many there are (an exit status computed from a count wraps at 256).
+	Bad int `json:"malformed_files,omitempty"`
 }
 
 func checkMany(c ManyCase) ev.Verdict {
@@ -381,11 +409,17 @@ func checkMany(c ManyCase) ev.Verdict {
 	args := []string{"-c", `ulimit -n "$1"; shift; exec "$@"`, "sh", fmt.Sprint(c.Limit), bin}
 	for i := 0; i < c.N; i++ {
 		text := fmt.Sprintf(`[{"op":"add","path":"/k%d","value":%d}]`, i, i)
+		if i < c.Bad {
+			text = `[{"op":"add","path":`
+		}
 		p := filepath.Join(dir, fmt.Sprintf("p%d.json", i))
 		if err := os.WriteFile(p, []byte(text), 0o644); err != nil {
 			return ev.Excluded("could not create the patch files: "+err.Error(), "infrastructure")
 		}
 		args = append(args, "-p", p)
+		if i < c.Bad {
+			continue
+		}
 		var perr error
 		if pn := ev.Safe(func() {
 			if c.Binary == "legacy" {
@@ -413,7 +447,13 @@ func checkMany(c ManyCase) ev.Verdict {
 	if ctx.Err() != nil {
 		return ev.Excluded("timeout running the command", "infrastructure")
 	}
-	v := ev.Verdict{Classes: []string{c.Binary, fmt.Sprintf("files=%d", c.N), fmt.Sprintf("limit=%d", c.Limit)}, NonTrivial: c.N > c.Limit}
+	v := ev.Verdict{Classes: []string{c.Binary, fmt.Sprintf("files=%d", c.N), fmt.Sprintf("limit=%d", c.Limit), fmt.Sprintf("malformed=%d", c.Bad)}, NonTrivial: c.N > c.Limit || c.Bad > 0}
+	if c.Bad > 0 {
+		if rerr == nil || so.Len() > 0 || se.Len() == 0 {
+			v.Err = fmt.Errorf("%d of %d patch files are malformed but the command ended with %v, %d bytes on stdout, %d bytes on stderr (want a non-zero exit, no document, a message)", c.Bad, c.N, rerr, so.Len(), se.Len())
+		}
+		return v
+	}
 	if rerr != nil {
 		v.Err = fmt.Errorf("%d valid patch files under a limit of %d descriptors: the command failed (%v); stderr: %s", c.N, c.Limit, rerr, headOf(se.String(), 400))
 		return v
@@ -433,7 +473,7 @@ func headOf(s string, n int) string {
 
 var manyUnit = ev.Unit[ManyCase]{
 	Name:  "many-patch-files",
-	Rule:  "enumerated: both commands x (40, 150, 400) valid one-operation patch files applied to a small document while the command may hold at most 64 / 100 file descriptors (ulimit -n in a wrapper shell); oracle: exit 0 and stdout byte-identical to applying the patches in order with the library; non-trivial = more files than descriptors",
+	Rule:  "enumerated: both commands x (1, 255, 256, 257, 512) malformed patch files followed by 3 valid ones (must fail, whatever the count), and (40, 150, 400) valid one-operation patch files applied to a small document while the command may hold at most 64 / 100 file descriptors (ulimit -n in a wrapper shell); oracle: exit 0 and stdout byte-identical to applying the patches in order with the library; non-trivial = more files than descriptors",
 	Check: checkMany,
 }
 
@@ -442,8 +482,11 @@ func TestManyFiles(t *testing.T) {
 	for _, b := range []string{"v5", "legacy"} {
 		for _, n := range []int{40, 150, 400} {
 			for _, l := range []int{64, 100} {
-				cases = append(cases, ManyCase{b, n, l})
+				cases = append(cases, ManyCase{Binary: b, N: n, Limit: l})
 			}
+		}
+		for _, bad := range []int{1, 255, 256, 257, 512} {
+			cases = append(cases, ManyCase{Binary: b, N: bad + 3, Limit: 1024, Bad: bad})
 		}
 	}
 	ev.RunCases(t, "C20", manyUnit, cases)
